@@ -706,6 +706,12 @@ class Engine:
         return [z3.Distinct(*cs)] if len(cs) > 1 else []
 
     def contains(self, cont, item, st, node):
+        if isinstance(cont, (VStr, VLabel)) and isinstance(item, (VStr, VLabel)):
+            if isinstance(cont, VStr) and isinstance(item, VStr):
+                return z3.BoolVal(item.s in cont.s)
+            # substring test on abstract strings: an uninterpreted relation (A-str)
+            SUB = z3.Function("str.contains", Label, Label, z3.BoolSort())
+            return SUB(self.key_term(cont), self.key_term(item))
         if isinstance(cont, VRef):
             o = st.heap[cont.addr]
             if isinstance(o, HDict):
@@ -1653,7 +1659,13 @@ class Engine:
             raise Unsupported("for/else")
         it = self.ev(node.iter, st)
         # normalise the iterable to (length, element function)
-        if isinstance(it, VConc) and it.name == "range":
+        if isinstance(it, VConc) and it.name == "range_down":
+            lo, hi = it.obj               # range(lo, hi, -1): lo, lo-1, ..., hi+1
+            n = z3.If(lo > hi, lo - hi, 0)
+
+            def elem(k):
+                return VInt(z3.simplify(lo - k))
+        elif isinstance(it, VConc) and it.name == "range":
             lo, hi = it.obj
             n = z3.If(hi > lo, hi - lo, 0) if self.feasible(st, hi < lo) else (hi - lo)
             nn = z3.is_int_value(lo) and lo.as_long() >= 0
